@@ -132,7 +132,26 @@ var c15Fragments = []string{"\"^^type:", "type:", "text", "bool", "int64", "floa
 
 func mutateText(t *rapid.T, s string) string {
 	r := []rune(s)
-	switch rapid.IntRange(0, 6).Draw(t, "mut") {
+	switch rapid.IntRange(0, 8).Draw(t, "mut") {
+	case 7, 8: // write one rune (preferably a quote or backslash-escaped quote) as a \u escape, as quoted ids accept
+		if len(r) == 0 {
+			return s
+		}
+		var quotes []int
+		for i := 0; i+1 < len(r); i++ {
+			if r[i] == '\\' && r[i+1] == '"' {
+				quotes = append(quotes, i)
+			}
+		}
+		if len(quotes) > 0 && rapid.IntRange(0, 3).Draw(t, "esc-quote") > 0 {
+			i := rapid.SampledFrom(quotes).Draw(t, "escq")
+			return string(r[:i]) + "\\u0022" + string(r[i+2:])
+		}
+		i := rapid.IntRange(0, len(r)-1).Draw(t, "esci")
+		if r[i] > 0xffff {
+			return s
+		}
+		return string(r[:i]) + fmt.Sprintf("\\u%04x", r[i]) + string(r[i+1:])
 	case 0: // truncate
 		if len(r) == 0 {
 			return s
